@@ -18,63 +18,69 @@ pub fn def() -> PropDef {
 fn run(r: &mut Run) -> Result<(), MachineryError> {
     let t = r.tier;
     let k = t.pick(3, 4);
-    let indents: &[&str] = &["", "> ", "> + "];
-    let space = Space { name: "C16/refill".into(), menu: VOCAB.iter().map(|s| s.to_string()).collect(), max_len: k, desc: format!("paragraphs of 1..={} words x o1 x o2 as in the rule; indents {:?}", k, indents) };
-    r.space(space, |seq, cx| {
-        if seq.is_empty() {
-            return;
-        }
-        let text: String = seq.iter().map(|&i| VOCAB[i as usize]).collect::<Vec<_>>().join(" ");
-        cx.set_input(&text);
-        for w1 in 0..=12usize {
-            for (a1n, a1) in algs() {
-                for le1 in [LineEnding::LF, LineEnding::CRLF] {
-                    for ii in indents {
-                        for si in indents {
-                            let o1 = space_only_options(w1, a1, le1, ii, si);
-                            let filled0 = match cx.guard(|| fill(&text, &o1)) {
-                                Some(f) => f,
-                                None => continue,
-                            };
-                            if filled0.split(le1.as_str()).count() < 2 {
-                                continue;
-                            }
-                            for trailing in [false, true] {
-                                let mut filled = filled0.clone();
-                                if trailing {
-                                    filled.push_str(le1.as_str());
+    let variants: [(&str, &'static [&'static str], &'static [LineEnding], &'static [bool]); 2] = [
+        ("C16/refill", &["", "> ", "> + "], &[LineEnding::LF, LineEnding::CRLF], &[false, true]),
+        // indents that do not end in a space (the prefix then touches the first word of the line)
+        ("C16/refill(indents-without-trailing-space)", &["", "#", "//", " >"], &[LineEnding::LF], &[false]),
+    ];
+    for (sname, indents, le1s, trailings) in variants {
+        let space = Space { name: sname.into(), menu: VOCAB.iter().map(|s| s.to_string()).collect(), max_len: k, desc: format!("paragraphs of 1..={} words x o1 x o2 as in the rule; indents {:?}", k, indents) };
+        r.space(space, |seq, cx| {
+            if seq.is_empty() {
+                return;
+            }
+            let text: String = seq.iter().map(|&i| VOCAB[i as usize]).collect::<Vec<_>>().join(" ");
+            cx.set_input(&text);
+            for w1 in 0..=12usize {
+                for (a1n, a1) in algs() {
+                    for &le1 in le1s {
+                        for ii in indents {
+                            for si in indents {
+                                let o1 = space_only_options(w1, a1, le1, ii, si);
+                                let filled0 = match cx.guard(|| fill(&text, &o1)) {
+                                    Some(f) => f,
+                                    None => continue,
+                                };
+                                if filled0.split(le1.as_str()).count() < 2 {
+                                    continue;
                                 }
-                                // o2 widths: fixed ones plus the boundary "widest line of the filled input" +-1
-                                let widest = filled0.split(le1.as_str()).map(ref_width).max().unwrap_or(0);
-                                let mut w2s = vec![0usize, 3, 5, 8, 20, widest, widest + 1];
-                                if widest > 0 {
-                                    w2s.push(widest - 1);
-                                }
-                                w2s.sort();
-                                w2s.dedup();
-                                for w2 in w2s {
-                                    for le2 in [LineEnding::LF, LineEnding::CRLF] {
-                                        let mut o2s: Vec<(String, Options<'static>)> = algs().into_iter().map(|(n, a)| (format!("space-only {}", n), space_only_options(w2, a, le2, "", ""))).collect();
-                                        o2s.push(("Options::new defaults".to_string(), Options::new(w2).line_ending(le2)));
-                                        // o2 carrying indents of its own: the statement replaces them by o1's
-                                        o2s.push(("Options::new defaults with indents (\"## \", \"    \") of its own".to_string(), Options::new(w2).line_ending(le2).initial_indent("## ").subsequent_indent("    ")));
-                                        for (o2n, o2) in o2s {
-                                            cx.eval();
-                                            cx.nontrivial();
-                                            let d = || format!("o1: width={} algorithm={} ending={:?} initial_indent={:?} subsequent_indent={:?} trailing_ending={}; o2: width={} ending={:?} {}", w1, a1n, le1, ii, si, trailing, w2, le2, o2n);
-                                            let res = cx.guard(|| {
-                                                let got = refill(&filled, o2.clone());
-                                                let mut exp = fill(&text, o2.clone().initial_indent(ii).subsequent_indent(si));
-                                                if trailing {
-                                                    exp.push_str(le2.as_str());
-                                                }
-                                                (got, exp)
-                                            });
-                                            if let Some((got, exp)) = res {
-                                                cx.outcome(&got);
-                                                cx.check("C16-refill-eq-fill-of-original", got == exp, &d, &|| json!({"filled_input": filled, "refill": got, "expected": exp}));
-                                                if cx.want_sample() {
-                                                    cx.sample(&|| json!({"paragraph": text, "config": d(), "filled_input": filled, "refill": got}));
+                                for &trailing in trailings {
+                                    let mut filled = filled0.clone();
+                                    if trailing {
+                                        filled.push_str(le1.as_str());
+                                    }
+                                    // o2 widths: fixed ones plus the boundary "widest line of the filled input" +-1
+                                    let widest = filled0.split(le1.as_str()).map(ref_width).max().unwrap_or(0);
+                                    let mut w2s = vec![0usize, 3, 5, 8, 20, widest, widest + 1];
+                                    if widest > 0 {
+                                        w2s.push(widest - 1);
+                                    }
+                                    w2s.sort();
+                                    w2s.dedup();
+                                    for w2 in w2s {
+                                        for le2 in [LineEnding::LF, LineEnding::CRLF] {
+                                            let mut o2s: Vec<(String, Options<'static>)> = algs().into_iter().map(|(n, a)| (format!("space-only {}", n), space_only_options(w2, a, le2, "", ""))).collect();
+                                            o2s.push(("Options::new defaults".to_string(), Options::new(w2).line_ending(le2)));
+                                            // o2 carrying indents of its own: the statement replaces them by o1's
+                                            o2s.push(("Options::new defaults with indents (\"## \", \"    \") of its own".to_string(), Options::new(w2).line_ending(le2).initial_indent("## ").subsequent_indent("    ")));
+                                            for (o2n, o2) in o2s {
+                                                cx.eval();
+                                                cx.nontrivial();
+                                                let d = || format!("o1: width={} algorithm={} ending={:?} initial_indent={:?} subsequent_indent={:?} trailing_ending={}; o2: width={} ending={:?} {}", w1, a1n, le1, ii, si, trailing, w2, le2, o2n);
+                                                let res = cx.guard(|| {
+                                                    let got = refill(&filled, o2.clone());
+                                                    let mut exp = fill(&text, o2.clone().initial_indent(ii).subsequent_indent(si));
+                                                    if trailing {
+                                                        exp.push_str(le2.as_str());
+                                                    }
+                                                    (got, exp)
+                                                });
+                                                if let Some((got, exp)) = res {
+                                                    cx.outcome(&got);
+                                                    cx.check("C16-refill-eq-fill-of-original", got == exp, &d, &|| json!({"filled_input": filled, "refill": got, "expected": exp}));
+                                                    if cx.want_sample() {
+                                                        cx.sample(&|| json!({"paragraph": text, "config": d(), "filled_input": filled, "refill": got}));
+                                                    }
                                                 }
                                             }
                                         }
@@ -85,6 +91,7 @@ fn run(r: &mut Run) -> Result<(), MachineryError> {
                     }
                 }
             }
-        }
-    })
+        })?;
+    }
+    Ok(())
 }
